@@ -28,7 +28,8 @@ LEVEL = "exploration"
 RULE = (
     "A base shape (polygon, cubic or quadratic blob, ellipse, ring) and 1-4 copies of it under drawn isometries (translation inside the em, "
     "rotation by any angle, reflection about any axis), emitted in direct normal form with >= 6 decimals, spread over 1-3 glyphs that share "
-    "one viewBox (>= 24 units), mixed with unrelated shapes, with solid or gradient fills, reuse_tolerance in {0.1, 0.5, 2} and formats "
+    "one viewBox (>= 24 units; a quarter of the cases 4-6 glyphs with 1-2 further shapes that recur in 2-3 glyphs each, so that the groups of glyphs "
+    "sharing something overlap and chain), mixed with unrelated shapes, with solid or gradient fills, reuse_tolerance in {0.1, 0.5, 2} and formats "
     "{glyf_colr_0, glyf_colr_1, picosvg}. Oracle (read back from the binary): every member of the family draws the same stored outline "
     "(COLR: one outline glyph after resolving COLRv0 composite layer glyphs; picosvg: one <path>, all other members <use> it); with "
     "tolerance -1 the same input must store one outline per member. One case in eight uses an em of 8192/16384 units with an em height up to "
@@ -50,6 +51,9 @@ def setup_worker():
 @st.composite
 def family_case(draw, tier):
     cfg = draw(font_config(FORMATS, transforms=False, max_upem=4096))
+    chained = draw(st.integers(0, 3)) == 0
+    if chained and draw(st.booleans()):
+        cfg["color_format"] = "picosvg"  # documents are formed per group of glyphs there
     huge = draw(st.integers(0, 7)) == 0
     if huge:
         # a huge em: copies end up 16 000 - 30 000 font units apart, the upper half of what a 16.16 translation can hold
@@ -74,8 +78,8 @@ def family_case(draw, tier):
         else:
             cfg["reuse_tolerance"] = 0.1
             size = max(size, min(0.3 * min(vb[2], vb[3]), 45 * 0.1 / unit_scale / 0.6))
-    nglyph = draw(st.integers(1, 3))
-    ncopies = draw(st.integers(1, 4))
+    nglyph = draw(st.integers(4, 6)) if chained else draw(st.integers(1, 3))
+    ncopies = draw(st.integers(2, 4)) if chained else draw(st.integers(1, 4))
     members = []
     for k in range(ncopies + 1):
         kind = "identity" if k == 0 else draw(st.sampled_from(["translate", "rotate", "rotate", "mirror", "mirror"]))
@@ -92,6 +96,21 @@ def family_case(draw, tier):
         cy = vb[1] + draw(st.floats(lo, hi)) * vb[3]
         m = achain(scale(size), lin, translate(cx, cy))
         members.append({"kind": kind, "angle": ang, "m": [float(x) for x in m], "cmds": transform_cmds(unit, m), "glyph": draw(st.integers(0, nglyph - 1)) if k else 0})
+    # chained sharing: 1-2 further shapes, each recurring (translated) in 2-3 glyphs, so that which glyphs must live in one
+    # OT-SVG document / share outlines is the transitive closure of several overlapping groups
+    links = []
+    if chained:
+        for li in range(draw(st.integers(1, 2))):
+            lshape = draw(unit_shape(("polygon", "rect", "cubic")))
+            ls = draw(st.floats(0.06, 0.15)) * min(vb[2], vb[3])
+            where = draw(st.lists(st.integers(0, nglyph - 1), min_size=2, max_size=3, unique=True))
+            fam_glyphs = sorted({mem["glyph"] for mem in members})
+            outside = [g for g in range(nglyph) if g not in fam_glyphs and g < fam_glyphs[-1]]
+            if li == 0 and outside and len(fam_glyphs) >= 2 and draw(st.booleans()):
+                # the linking shape is first seen in a glyph outside the family and then again in the family's last glyph: two
+                # groups that formed independently are joined late, through members that are not the groups' first glyphs
+                where = [draw(st.sampled_from(outside)), fam_glyphs[-1]]
+            links.append((lshape, ls, where, li))
     sources = []
     for gi in range(nglyph):
         nodes = []
@@ -99,6 +118,10 @@ def family_case(draw, tier):
             if mem["glyph"] == gi:
                 fill = draw(paint_st(palette, cmds_bbox(mem["cmds"]), p_grad=0.3))
                 nodes.append({"t": "p", "d": mem["cmds"], "fill": fill, "op": 1.0, "tag": "fam:" + mem["kind"], "angle": mem["angle"], "m": mem["m"]})
+        for lshape, ls, where, li in links:
+            if gi in where:
+                cm = transform_cmds(lshape, achain(scale(ls), translate(vb[0] + draw(st.floats(0.2, 0.8)) * vb[2], vb[1] + draw(st.floats(0.2, 0.8)) * vb[3])))
+                nodes.insert(draw(st.integers(0, len(nodes))), {"t": "p", "d": cm, "fill": {"k": "solid", "c": "#%06x" % draw(st.integers(0, 0xFFFFFF))}, "op": 1.0, "tag": "other"})
         for _ in range(draw(st.integers(0, 2))):
             other = draw(unit_shape(("polygon", "rect", "cubic")))
             s2 = draw(st.floats(0.05, 0.2)) * min(vb[2], vb[3])
